@@ -25,6 +25,16 @@
 //           call on the object under test (first call, second call, fresh object); the start-up default is restored before the
 //           environment groups are computed (they are rendered under QLocale::c()).  The documented rules know no locale: every
 //           number (%{time process}, %{time boot}, %{line}, %{threadid}, int attributes) is plain C text under every default locale.
+//   via (optional, after locale - which is then written ~ when there is none; round 8) = how the formatter OBJECT under test is obtained:
+//           d or absent = constructed directly, PatternFormatter(pat);
+//           f = through the fluent front end: SimplePipeline().format(pat) with a trailing .handler(...) that captures
+//               lmsg.formattedMessage(); a text is then observed by passing a COPY of the message through that pipeline
+//               (twice = 1: the pipeline first processes the message itself, as Formatter::process() does in the direct form).
+//           In a sequence the field of the seq = 0 line decides for the whole sequence (the kept object IS that pipeline).
+//           The "fresh object" comparison is always made with a directly constructed PatternFormatter(pat): with via = f the
+//           group therefore also says whether front end and direct construction agree on the very same LogMessage.
+//           The front end gives the names "default", "qt", "pretty" a meaning of their own (DefaultMessagePattern / other
+//           formatter classes); the caller decides what to expect for them.
 //   tval = s<hex> (QString; s~ = null QString, s- = empty) | i<decimal> (int / qlonglong) | b0 | b1 (bool)
 //
 // default mode, output line:
@@ -101,6 +111,7 @@ struct Case
     bool timing = false;        // the timing fields are present (two more output groups)
     long gap = 0, delay = 0, again = 0;
     QString locale;             // non-empty: the default QLocale while the object under test works
+    bool fluent = false;        // the object under test is obtained through SimplePipeline().format(pat)
     // threads mode
     std::unique_ptr<PatternFormatter> pf;
     QString expected, firstBad;
@@ -133,6 +144,7 @@ static void parse(const std::string &line, Case &k, bool honourGap = false)
         if (i < f.size()) k.seq = num();
         if (i + 2 < f.size()) { k.timing = true; k.gap = num(); k.delay = num(); k.again = num(); }
         if (i < f.size()) k.locale = unhex(nxt());
+        if (i < f.size()) k.fluent = (nxt() == "f");
     }
     if (honourGap) {
         if (k.gap > 0) sleepMs(k.gap);
@@ -224,6 +236,35 @@ struct DefaultLocale
     void restore() { if (active) { QLocale::setDefault(saved); active = false; } }
     ~DefaultLocale() { restore(); }
 };
+// the object under test: a directly constructed PatternFormatter, or the pipeline SimplePipeline().format(pat).handler(capture)
+struct Subject
+{
+    std::unique_ptr<PatternFormatter> direct;
+    std::unique_ptr<SimplePipeline> pipe;
+    QString captured;
+    bool reached = false;
+    Subject(const QString &pat, bool fluent)
+    {
+        if (!fluent) { direct.reset(new PatternFormatter(pat)); return; }
+        pipe.reset(new SimplePipeline());
+        pipe->format(pat).handler([this](LogMessage &lm) { captured = lm.formattedMessage(); reached = true; return true; });
+    }
+    Subject(const Subject &) = delete;
+    Subject &operator=(const Subject &) = delete;
+    QString format(const LogMessage &m)
+    {
+        if (direct) return direct->format(m);
+        LogMessage copy(m);
+        captured = QString(); reached = false;
+        pipe->process(copy);
+        if (!reached) throw std::runtime_error("fluent: the handler behind format(pattern) was not reached");
+        return captured;
+    }
+    void process(LogMessage &m)
+    {
+        if (direct) direct->process(m); else pipe->process(m);
+    }
+};
 static int threadsMode(int K, long rounds, long maxms)
 {
     std::vector<std::unique_ptr<Case>> cs;
@@ -270,7 +311,7 @@ int main(int argc, char **argv)
     if (argc >= 5 && std::string(argv[1]) == "threads")
         return threadsMode(std::stoi(argv[2]), std::stol(argv[3]), std::stol(argv[4]));
     std::string line;
-    std::unique_ptr<PatternFormatter> kept;     // the formatter object of the sequence in progress
+    std::unique_ptr<Subject> kept;              // the formatter object of the sequence in progress
     QString keptPat;
     calibrateProcessStart(mainStart);
     while (std::getline(std::cin, line)) {
@@ -286,11 +327,11 @@ int main(int argc, char **argv)
                 (void)PatternFormatter(QStringLiteral("p%{verif_poison_attr?0,3}")).format(pm);
             }
             DefaultLocale dl(k.locale);
-            std::unique_ptr<PatternFormatter> own;
-            if (k.seq < 0) own.reset(new PatternFormatter(k.pat));
-            else if (k.seq == 0) { kept.reset(new PatternFormatter(k.pat)); keptPat = k.pat; }
+            std::unique_ptr<Subject> own;
+            if (k.seq < 0) own.reset(new Subject(k.pat, k.fluent));
+            else if (k.seq == 0) { kept.reset(new Subject(k.pat, k.fluent)); keptPat = k.pat; }
             else if (!kept || keptPat != k.pat) throw std::runtime_error("protocol: no kept formatter object with this pattern");
-            PatternFormatter &pf = own ? *own : *kept;
+            Subject &pf = own ? *own : *kept;
             sleepMs(k.delay);             // the message waits (in a queue, say) before it is formatted
             if (k.twice) pf.process(m);   // = m.setFormattedMessage(pf.format(m)): the message now carries formatter output
             const QString res = pf.format(m);
